@@ -45,6 +45,8 @@ type ctxObs struct {
 	inFunc bool
 	ctx    parser.ContextType
 	tokLit string
+	// bracketed: a plugin's own context value is on the stack; the innermost answer is the plugin's business
+	bracketed bool
 }
 
 type tokObs struct {
@@ -113,6 +115,9 @@ type install struct {
 	// stmtReenter (C16 only): a statement party may parse its step through the public ParseStatement()
 	// (a plugin that parses a body itself) instead of calling next()
 	stmtReenter bool
+	// bracket (C16 only): a statement party may wrap its step in a context value of its own
+	// (PushContext(7) ... PopContext()), as a plugin that introduces a new kind of scope does
+	bracket bool
 	// bailout (C16 only): one nested statement-interceptor invocation panics, the outermost one recovers
 	bailout bool
 	// subParse: parties occasionally run an independent nested parser before calling next()
@@ -161,6 +166,7 @@ func drawInstall(ch *kernel.Chooser, forC16 bool) install {
 	in.specific = ch.Bool(1, 3)
 	in.bailout = forC16 && ch.Bool(1, 6)
 	in.stmtReenter = forC16 && ch.Bool(1, 4)
+	in.bracket = forC16 && ch.Bool(1, 5)
 	in.builds = 1 + ch.Weighted(5, 3, 2)
 	in.lateAdds = make([]byte, in.builds)
 	for b := 1; b < in.builds; b++ {
@@ -192,6 +198,7 @@ type installation struct {
 	unwinding     bool // a bail-out panic is travelling up the stack
 	muted         bool // parties pass through without recording or acting (nested sibling parse)
 	inStmtReenter bool
+	bracketDepth  int
 }
 
 var oddPrefixes = []string{"\xEF\xBB\xBF", "\xEF\xBB\xBF// c\n", "\uFEFF\n", "#!/usr/bin/env xjs\n", "\x00", "\u200b", "\u00a0", "\r\n", "\t\v\f ", "/**/", "<!-- x\n", "\xFF\xFE", "\u2028"}
@@ -404,7 +411,17 @@ func (x *installation) add(k byte, via bool) {
 				}
 				r.add('S', idx, 'e', ord, false)
 				if idx == 0 {
-					r.ctxs = append(r.ctxs, ctxObs{kind: 'S', ord: ord, inFunc: p.IsInFunction(), ctx: p.CurrentContext(), tokLit: entry.Literal})
+					r.ctxs = append(r.ctxs, ctxObs{kind: 'S', ord: ord, inFunc: p.IsInFunction(), ctx: p.CurrentContext(), tokLit: entry.Literal, bracketed: x.bracketDepth > 0})
+				}
+				if in.bracket && idx == x.si-1 && ch.Bool(1, 8) {
+					// innermost party: the step runs inside the plugin's own context value
+					st.Inc("probe.step_bracketed_by_plugin_context_value")
+					p.PushContext(parser.ContextType(7))
+					x.bracketDepth++
+					defer func() {
+						x.bracketDepth--
+						p.PopContext()
+					}()
 				}
 				if in.subParse && ch.Bool(1, 12) {
 					x.nestedParse()
@@ -459,7 +476,7 @@ func (x *installation) add(k byte, via bool) {
 				}
 				r.add('E', idx, 'e', ord, re)
 				if idx == 0 {
-					r.ctxs = append(r.ctxs, ctxObs{kind: 'E', ord: ord, inFunc: p.IsInFunction(), ctx: p.CurrentContext(), tokLit: entry.Literal})
+					r.ctxs = append(r.ctxs, ctxObs{kind: 'E', ord: ord, inFunc: p.IsInFunction(), ctx: p.CurrentContext(), tokLit: entry.Literal, bracketed: x.bracketDepth > 0})
 				}
 				x.exprDepth++
 				if in.subParse && ch.Bool(1, 24) {
@@ -857,12 +874,14 @@ func (e *Engine) Run(prop string, ch *kernel.Chooser, st *kernel.Stats) kernel.R
 	text := p.Text
 	valid := true
 	faultDesc := "none"
+	fusedOnly := false // the fault only removed a statement separator: brace structure and token order are intact
 	if ch.Bool(2, 5) {
 		faults := faultsim.EnumerateFaults(p)
 		if len(faults) > 0 {
 			f := faults[ch.Choose(len(faults))]
 			text, valid, faultDesc = f.Text, false, f.Kind+":"+f.Ctx
 			st.Inc("fault." + f.Kind)
+			fusedOnly = f.Kind == "unsep"
 		}
 	}
 	if ch.Bool(1, 12) {
@@ -870,9 +889,25 @@ func (e *Engine) Run(prop string, ch *kernel.Chooser, st *kernel.Stats) kernel.R
 		// invisible spaces, NUL, an HTML comment opener, an empty block comment. Ground truth no longer applies.
 		pre := oddPrefixes[ch.Choose(len(oddPrefixes))]
 		text, valid, faultDesc = pre+text, false, faultDesc+"+prefix"
+		fusedOnly = false
 		st.Inc("fault.odd_prefix")
 	}
 	m := xutil.AllModes[ch.Choose(4)]
+	if forC16 && valid && ch.Bool(1, 5) {
+		// fused statements under tolerant mode, on purpose: the nesting ground truth still applies there
+		var fused []faultsim.Fault
+		for _, f := range faultsim.EnumerateFaults(p) {
+			if f.Kind == "unsep" {
+				fused = append(fused, f)
+			}
+		}
+		if len(fused) > 0 {
+			f := fused[ch.Choose(len(fused))]
+			text, valid, faultDesc, fusedOnly = f.Text, false, f.Kind+":"+f.Ctx, true
+			m.Tolerant = true
+			st.Inc("fault.unsep")
+		}
+	}
 	in := drawInstall(ch, forC16)
 	st.Inc(fmt.Sprintf("installs.kT%d", in.kT))
 	if in.kS == 8 && in.kE == 8 && in.kT == 8 {
@@ -945,7 +980,7 @@ func (e *Engine) Run(prop string, ch *kernel.Chooser, st *kernel.Stats) kernel.R
 			*rec = recorder{posIndex: posIndex, nTok: len(toks)}
 			st.Inc("probe.builder_reused_for_another_parser")
 		}
-		inst.bailed, inst.stmtDepth, inst.exprDepth, inst.inStmtReenter = false, 0, 0, false
+		inst.bailed, inst.stmtDepth, inst.exprDepth, inst.inStmtReenter, inst.bracketDepth = false, 0, 0, false, 0
 		lexCalls := hooks.Count(hooks.LexerNextToken)
 		out := observe(inst.pb, text, rec)
 		lexCalls = hooks.Count(hooks.LexerNextToken) - lexCalls
@@ -1138,7 +1173,13 @@ func (e *Engine) Run(prop string, ch *kernel.Chooser, st *kernel.Stats) kernel.R
 		if prop == "C16" {
 			// in-run oracle on valid programs: answers at every invocation vs generator nesting
 			// (not after a bail-out: the parse continued from the middle of a construct)
-			if valid && !inst.bailed {
+			// Statements fused on one line keep their nesting: in tolerant mode (which parses them as separate
+			// statements) the same ground truth applies, provided the removed separator was not a `;` token.
+			nestingKnown := valid || (fusedOnly && m.Tolerant && len(toks) == len(p.Toks)+1)
+			if nestingKnown && !valid {
+				st.Inc("probe.nesting_checked_on_fused_statements_in_tolerant_mode")
+			}
+			if nestingKnown && !inst.bailed {
 				for _, rr := range []*recorder{ref, rec} {
 					for _, c := range rr.ctxs {
 						if c.ord < 0 || c.ord >= len(p.Toks) {
@@ -1158,6 +1199,9 @@ func (e *Engine) Run(prop string, ch *kernel.Chooser, st *kernel.Stats) kernel.R
 						if c.inFunc != gt.InFunc {
 							add("C16", "in-function", fmt.Sprintf("in-function|want=%v|%s", gt.InFunc, kindName),
 								fmt.Sprintf("%s interceptor at token #%d %q (%d:%d): IsInFunction()=%v but the token is%s inside a function body (nesting depth %d)", kindName, c.ord, gt.Text, gt.Line, gt.Col, c.inFunc, map[bool]string{true: "", false: " not"}[gt.InFunc], gt.CtxDepth))
+						}
+						if c.bracketed {
+							continue // "is this inside a function" was still checked above
 						}
 						okCtx := false
 						want := ""
